@@ -117,8 +117,8 @@ def add_contract_cases(doc, rng):
 
 
 
-def gen_documents(rng, n, max_depth=3, roots=None, vary=True, contract=False):
-    usable = sweep.usable_slots()
+def gen_documents(rng, n, max_depth=3, roots=None, vary=True, contract=False, pool="usable"):
+    usable = sweep.usable_slots() if pool == "usable" else sweep.parseable_slots()
     child_ok = sweep.usable_children()
     roots = roots or ["map", "map", "layer", "class", "style", "label", "web", "legend", "scalebar", "symbol", "outputformat"]
     out = []
